@@ -7,8 +7,11 @@ REPO = os.environ.get("VERIF_REPO", "/repo")
 BUILD = os.path.join(ROOT, "build")
 GEN = os.path.join(ROOT, "generated")
 SPEC = os.path.join(ROOT, "spec")
-EVID = os.path.join(ROOT, "evidence")
-REPLAYS = os.path.join(ROOT, "replays")
+# a run against another tree (VERIF_REPO=<scratch copy>, used by the mutation self-test) must not overwrite the evidence,
+# replay files and work directories of the registered checks, which always run against /repo
+ALT = os.environ.get("VERIF_REPO", "/repo") != "/repo"
+EVID = os.path.join(BUILD, "alt", "evidence") if ALT else os.path.join(ROOT, "evidence")
+REPLAYS = os.path.join(BUILD, "alt", "replays") if ALT else os.path.join(ROOT, "replays")
 TLA_CP = "/opt/veriftools/tla/tla2tools.jar:/opt/veriftools/tla/CommunityModules-deps.jar"
 NCPU = int(os.environ.get("VERIF_JOBS", "16"))
 
@@ -286,7 +289,7 @@ class Check:
         self.preds = {}           # name -> predicate(case) used by predicate-class known findings
         self.all_cases = []       # every evaluated case (for the audit of predicate classes: class size vs failing members)
         self.exhaustive = False
-        self.workdir = os.path.join(BUILD, "run", prop)
+        self.workdir = os.path.join(BUILD, "run_alt" if ALT else "run", prop)
         shutil.rmtree(self.workdir, ignore_errors=True)
         os.makedirs(self.workdir, exist_ok=True)
         self.rng = random.Random(seed * 7919 + 17)
